@@ -450,6 +450,124 @@ example : AccessLock.run (AccessLock.init 100) [.check 1 60, .acquire 2, .move 2
 
 end lock
 
+/-! ### the change section: merge into the current value and driver call in one critical section -/
+
+section changeSection
+open Frappy.Node.ChangeSection
+
+variable (merge : J → V → Option V)
+
+/-- invariant: a remembered merge belongs to the holder of the lock and is the merge into the value cached NOW; every
+call so far was given the payload merged into the value cached at its moment -/
+def SectionInv (s : CState J V) : Prop :=
+  (∀ j v, s.merged = some (j, v) → s.owner ≠ none ∧ merge j s.cur = some v) ∧ CallsMergeCurrent merge s
+
+theorem sectionInv_step (s s' : CState J V) (a : Act J V) (h : SectionInv merge s)
+    (hs : ChangeSection.step merge s a = some s') : SectionInv merge s' := by
+  obtain ⟨hm, hc⟩ := h
+  cases a with
+  | acquire t =>
+    simp only [ChangeSection.step] at hs; split at hs
+    · injection hs with hs; subst hs; exact ⟨(by intro j v hv; cases hv), hc⟩
+    · cases hs
+  | merge t j =>
+    simp only [ChangeSection.step] at hs; split at hs
+    · rename_i ho
+      injection hs with hs; subst hs
+      refine ⟨?_, hc⟩
+      intro j' v' hv
+      simp only [mergeNow] at hv
+      split at hv
+      · rename_i w hw
+        injection hv with hv; injection hv with h1 h2; subst h1; subst h2
+        exact ⟨(by rw [ho]; simp), hw⟩
+      · cases hv
+    · cases hs
+  | call t =>
+    simp only [ChangeSection.step] at hs; split at hs
+    · simp only [doCall] at hs
+      split at hs
+      · rename_i j v hmv
+        injection hs with hs; subst hs
+        refine ⟨hm, ?_⟩
+        intro c hcm
+        simp only [List.mem_append, List.mem_singleton] at hcm
+        rcases hcm with hcm | rfl
+        · exact hc c hcm
+        · exact (hm j v hmv).2
+      · cases hs
+    · cases hs
+  | direct t =>
+    simp only [ChangeSection.step] at hs; split at hs
+    · injection hs with hs; subst hs; exact ⟨hm, hc⟩
+    · cases hs
+  | store t v =>
+    simp only [ChangeSection.step] at hs; split at hs
+    · injection hs with hs; subst hs; exact ⟨(by intro j v hv; cases hv), hc⟩
+    · cases hs
+  | release t =>
+    simp only [ChangeSection.step] at hs; split at hs
+    · injection hs with hs; subst hs; exact ⟨(by intro j v hv; cases hv), hc⟩
+    · cases hs
+
+/-- **calls_merge_current.**  Under the lock discipline of the change section (the merge of the payload into the cached
+value, the driver call and the storing of a new value only by the holder of `accessLock`) every driver call caused by a
+request — in every interleaving of any number of threads, whatever the datatype's merge function — is given the payload
+merged into the value cached at the moment of the call: no other request, poll or write can slip in between the merge
+and the call. -/
+theorem calls_merge_current (cur : V) (acts : List (Act J V)) (s : CState J V)
+    (h : ChangeSection.run merge (ChangeSection.init cur) acts = some s) : CallsMergeCurrent merge s := by
+  have gen : ∀ (acts : List (Act J V)) (s0 s : CState J V), SectionInv merge s0 →
+      ChangeSection.run merge s0 acts = some s → SectionInv merge s := by
+    intro acts
+    induction acts with
+    | nil => intro s0 s h0 hr; injection hr with hr; subst hr; exact h0
+    | cons a rest ih =>
+      intro s0 s h0 hr
+      simp only [ChangeSection.run] at hr
+      split at hr
+      · rename_i s1 hs1; exact ih s1 s (sectionInv_step merge s0 s1 a h0 hs1) hr
+      · cases hr
+  exact (gen acts _ s ⟨(by intro j v hv; cases hv), (by intro c hc; cases hc)⟩ h).2
+
+/-- the driver is called at most once per critical section entered with a merge … and never without one: a `call`
+is only possible after a `merge` of the same section succeeded -/
+theorem call_needs_merge (s s' : CState J V) (t : Nat) (hs : ChangeSection.step merge s (.call t) = some s') :
+    ∃ j v, s.merged = some (j, v) ∧ s.owner = some t ∧ s'.calls = s.calls ++ [⟨t, j, s.cur, v⟩] := by
+  simp only [ChangeSection.step] at hs; split at hs
+  · rename_i ho
+    simp only [doCall] at hs
+    split at hs
+    · rename_i j v hmv; injection hs with hs; subst hs; exact ⟨j, v, hmv, ho, rfl⟩
+    · cases hs
+  · cases hs
+
+namespace SectionExample
+/-- a struct `(p, i)`; a payload sets one member (`none` = keep) -/
+def mergePI : (Option Nat × Option Nat) → (Nat × Nat) → Option (Nat × Nat) :=
+  fun j cur => some (j.1.getD cur.1, j.2.getD cur.2)
+end SectionExample
+
+open SectionExample in
+/-- non-vacuity: two clients change different members of a struct, a poll in between; both changes survive and each
+driver call is the payload merged into the value of its moment -/
+example : (ChangeSection.run mergePI (ChangeSection.init (0, 0))
+    [.acquire 1, .merge 1 (some 1, none), .call 1, .store 1 (1, 0), .release 1,
+     .acquire 3, .store 3 (1, 5), .release 3,
+     .acquire 2, .merge 2 (none, some 2), .call 2, .store 2 (1, 2), .release 2]).map
+      (fun s => (s.cur, s.calls.map (fun c => (c.current, c.value)))) = some ((1, 2), [((0, 0), (1, 0)), ((1, 5), (1, 2))]) := by
+  decide
+
+open SectionExample in
+/-- the interleaving of the seeded mutant (client 2 merges while client 1 is still in the driver, i.e. outside the
+critical section) is not a run of the system -/
+example : ChangeSection.run mergePI (ChangeSection.init (0, 0))
+    [.acquire 1, .merge 1 (some 1, none), .call 1, .merge 2 (none, some 2), .store 1 (1, 0), .release 1,
+     .acquire 2, .call 2] = none := by
+  decide
+
+end changeSection
+
 /-! ### table facts (re-checked whenever the repository's table changes) -/
 
 /-- `PREDEFINED_ACCESSIBLES` has no duplicate name: the first-match look-up of the model is the dict look-up -/
